@@ -243,9 +243,9 @@ def check_replace_sub(host, roots, leaves, sub, identity_labels, col, kind):
         feats.add('host-blocks')
     downstream = K.reach(host, list(roots), True)
     if any(l in downstream for l in leaves):
-        # a listed "leaf" that itself depends on a root (superfluous for the cone); implies the two features below
-        feats.add('leaf-depends-on-root')
-        feats -= {'leaf-is-gate', 'root-used-outside'}
+        # A listed "leaf" that itself depends on a root is not a cut of the cone (C19 quantifies over
+        # cut-bounded subcircuits: leaves lie below the roots, never in their fan-out). Out of scope: skipped.
+        return
     size = len(host.gates) + len(sub.gates)
     rp = {'kind': 'bounded', 'host': host.to_json(), 'subcircuit': sub.to_json(), 'inputs_mapping': in_map, 'outputs_mapping': out_map,
           'call': 'build(host).replace_subcircuit(build(subcircuit), inputs_mapping, outputs_mapping)',
